@@ -88,12 +88,33 @@ func (e *enc) script(o *Obligation, withValues []string) string {
 			}
 		}
 	}
-	for _, n := range e.ss.FuncOrder {
-		if used[n] {
-			sb.WriteString(e.specSigs[n].decl + "\n")
+	// dependency order
+	emitted := map[string]bool{}
+	var emit func(n string)
+	emit = func(n string) {
+		if emitted[n] || !used[n] {
+			return
 		}
+		emitted[n] = true
+		for _, m := range spNameRe.FindAllString(e.specSigs[n].decl, -1) {
+			d := strings.TrimPrefix(m, "sp_")
+			if d != n {
+				emit(d)
+			}
+		}
+		sb.WriteString(e.specSigs[n].decl + "\n")
+	}
+	for _, n := range e.ss.FuncOrder {
+		emit(n)
 	}
 	sb.WriteString(body.String())
+	for _, name := range sortedKeys(e.so.cardAx) {
+		if strings.Contains(body.String(), "Card_"+name+" ") || strings.Contains(tail, "Card_"+name+" ") {
+			for _, a := range e.so.cardAx[name] {
+				sb.WriteString(a + "\n")
+			}
+		}
+	}
 	for i, ax := range e.axioms {
 		if axIn[i] {
 			sb.WriteString(fmt.Sprintf("(assert %s) ; axiom %s\n", ax.text, ax.name))
